@@ -1308,6 +1308,23 @@ func (fr *Frame) builtinAppend(x ssa.CallInstruction, args []Val, st *State) (Va
 		}
 		if single {
 			st.Assume(T(SBool, "(= %s %s)", newAt(SLen(s).S), Sel(srcRow, SOff(t), es).S))
+		} else {
+			// ... and the appended elements follow them, in order
+			k := "j!" + fmt.Sprint(vc.fresh)
+			vc.fresh++
+			at := newAt(k)
+			src := srcAt(fmt.Sprintf("(- %s %s)", k, SLen(s).S))
+			if vc.patternOKDeep(at) {
+				st.Assume(T(SBool, "(forall ((%s Int)) (! (=> (and (<= %s %s) (< %s %s)) (= %s %s)) :pattern (%s)))",
+					k, SLen(s).S, k, k, newLen.S, at, src, at))
+			}
+			k2 := "j!" + fmt.Sprint(vc.fresh)
+			vc.fresh++
+			sat := srcAt(k2)
+			if vc.patternOKDeep(sat) {
+				st.Assume(T(SBool, "(forall ((%s Int)) (! (=> (and (<= 0 %s) (< %s %s)) (= %s %s)) :pattern (%s)))",
+					k2, k2, k2, n.S, newAt(fmt.Sprintf("(+ %s %s)", SLen(s).S, k2)), sat, sat))
+			}
 		}
 	}
 	return TV(res), st
